@@ -1032,6 +1032,8 @@ func TestC19(t *testing.T) {
 	r.Require("cli_mutated_rejected", 1000)
 	r.Require("cli_mutated_accepted_justified", 50)
 	r.Require("cli_accepted_attacker_proved_own_identity", 10)
+	r.Require("cli_calls_failed_by_a_broken_round_trip", 20)
+	r.Require("cli_rejected_family:hostless", 20)
 	// concurrency
 	r.Require("conc_accepts_justified", 100)
 	r.Require("conc_forged_rejected", 100)
